@@ -27,15 +27,6 @@ def encReps : List (List VT) → Bytes
   | r :: rs => encItems r ++ encReps rs
 end
 
-/-- decoding of one attribute from exactly its own bytes -/
-def decodeVal (ty : Ty) (sc : Scale) (b : Bytes) : R PyVal :=
-  match bytes2val b ty with
-  | .error e => .error e
-  | .ok v =>
-    match sc with
-    | .one => .ok v
-    | _ => scaleUp v sc
-
 mutual
 def specItem (c : WCtx) (idx : List Nat) : Item → VT → Env → R Env
   | .attr n ty sc, .leaf b, env =>
